@@ -17,7 +17,8 @@ YN(k) == <<89, 48 + k>>
 RowNames == <<XN(1), XN(2), XN(3), YN(1), YN(2), YN(3)>>
 
 Lits == {Null, IntV(0), IntV(1), IntV(-1), IntV(2), IntV(31), IntV(32), IntV(MinI32), IntV(MaxI32),
-         StrV(<<>>), StrV(<<97>>), StrV(<<98>>)}
+         StrV(<<>>), StrV(<<97>>), StrV(<<98>>),
+         StrV(<<48>>), StrV(<<49, 48>>)}          \* "0", "10": strings that look like numbers are strings
 \* values a column can hold: i32::MIN is the null marker of the format and "" is stored as null
 ColVals == Lits \ {IntV(MinI32), StrV(<<>>)}
 
